@@ -57,6 +57,7 @@ Definition vdot (a b : vec) : R := v0 a * v0 b + v1 a * v1 b + v2 a * v2 b.
 Definition vcross (a b : vec) : vec :=
   (v1 a * v2 b - v2 a * v1 b, v2 a * v0 b - v0 a * v2 b, v0 a * v1 b - v1 a * v0 b).
 Definition vnorm (a : vec) : R := sqrt (vdot a a).
+Definition vnorm_xy (a : vec) := sqrt (v0 a * v0 a + v1 a * v1 a).
 Definition vmod (a b : vec) : vec := (nmod (v0 a) (v0 b), nmod (v1 a) (v1 b), nmod (v2 a) (v2 b)).
 Definition vabs (a : vec) : vec := (Rabs (v0 a), Rabs (v1 a), Rabs (v2 a)).
 Definition vminc (a b : vec) : vec := (Rmin (v0 a) (v0 b), Rmin (v1 a) (v1 b), Rmin (v2 a) (v2 b)).
@@ -94,7 +95,7 @@ Ltac vdestruct :=
   end.
 Ltac vunfold :=
   unfold mcols, mdet, mid, mmul, mvmul, rowcol, acc3, mtrans, mcol0, mcol1, mcol2, m0, m1, m2, mkm,
-         vsum, vall_lt, vall_ge, vall_le, vminc, vabs, vmod, vnorm, vcross, vdot, vmul, vdivs,
+         vsum, vall_lt, vall_ge, vall_le, vminc, vnorm_xy, vabs, vmod, vnorm, vcross, vdot, vmul, vdivs,
          vscale_r, vscale, vneg, vsub, vadd, vzero, v0, v1, v2, mkv, nconst_Q in *; cbn [fst snd] in *.
 Lemma vec_eq (a b c a' b' c' : R) : a = a' -> b = b' -> c = c' -> (a, b, c) = (a', b', c').
 Proof. intros; subst; reflexivity. Qed.
